@@ -403,3 +403,73 @@ Proof.
   - apply (OK F hf Hlt c). exact H.
   - rewrite nth_overflow in H by lia. discriminate.
 Qed.
+
+(* ---------------------------------------------------------------- the exactness invariant of C01 survives the relabeling *)
+Lemma In_map_swap_half a b x l : In x (map (swap_half a b) l) <-> In (swap_half a b x) l.
+Proof.
+  rewrite in_map_iff. split.
+  - intros [y [<- H]]. rewrite swap_half_involutive. exact H.
+  - intros H. exists (swap_half a b x). split; [apply swap_half_involutive|exact H].
+Qed.
+
+Lemma swap_idx_lt a b n x : a < n -> b < n -> (swap_idx a b x < n <-> x < n).
+Proof. intros Ha Hb. unfold swap_idx. destruct (Nat.eqb_spec x a); [lia|]. destruct (Nat.eqb_spec x b); lia. Qed.
+
+Lemma swap_half_lt a b n x : a < n -> b < n -> (swap_half a b x < 2 * n <-> x < 2 * n).
+Proof.
+  intros Ha Hb. destruct (swap_half_spec a b x) as [Q1 Q2]. pose proof (swap_idx_lt a b n (x / 2) Ha Hb) as Q.
+  rewrite <- Q1 in Q. lia.
+Qed.
+
+Lemma face_at_face_relabeled a b s f : a < nf s -> b < nf s -> face_at (face_relabeled a b s) f = face_at s (swap_idx a b f).
+Proof.
+  intros Ha Hb. unfold face_at, face_relabeled. rsf. rewrite nth_swap_nth by assumption. unfold swap_idx.
+  destruct (Nat.eqb_spec f a); [reflexivity|]. destruct (Nat.eqb_spec f b); reflexivity.
+Qed.
+
+Lemma f_deleted_face_relabeled a b s f : a < length (fdel s) -> b < length (fdel s) ->
+  f_deleted (face_relabeled a b s) f = f_deleted s (swap_idx a b f).
+Proof.
+  intros Ha Hb. unfold f_deleted, face_relabeled. rsf. rewrite nth_swap_nth by assumption. unfold swap_idx.
+  destruct (Nat.eqb_spec f a); [reflexivity|]. destruct (Nat.eqb_spec f b); reflexivity.
+Qed.
+
+Theorem bu_inv_face_relabeled a b s : a <> b -> a < nf s -> b < nf s -> bu_inv s -> bu_inv (face_relabeled a b s).
+Proof.
+  intros N Ha Hb (VO & EO & FO & (R1 & R2 & R3) & (L1 & L2 & L3 & L4 & L5 & L6)).
+  assert (NF : nf (face_relabeled a b s) = nf s) by apply nf_face_relabeled.
+  assert (NC : nc (face_relabeled a b s) = nc s) by (unfold nc, face_relabeled; rsf; apply map_length).
+  assert (NE : ne (face_relabeled a b s) = ne s) by reflexivity.
+  split; [exact VO|]. split; [|split; [|split; [split; [exact R1|split]|]]].
+  - (* ebu_ok *)
+    intros E h Hh x. change (ebu s = true) in E. rewrite NE in Hh.
+    replace (hfs_at (face_relabeled a b s) h) with (map (swap_half a b) (hfs_at s h))
+      by (unfold hfs_at, face_relabeled; rsf; rewrite E; symmetry; apply nth_map_map_half).
+    rewrite In_map_swap_half, (EO E h Hh (swap_half a b x)), NF, halfface_face_relabeled by assumption.
+    rewrite f_deleted_face_relabeled by lia. destruct (swap_half_spec a b x) as [Q _]. rewrite Q.
+    pose proof (swap_idx_lt a b (nf s) (x / 2) Ha Hb). tauto.
+  - (* fbu_ok *)
+    intros F hf Hhf c. change (fbu s = true) in F. rewrite NF in Hhf.
+    rewrite cell_of_face_relabeled by (try assumption; exact (L3 F)).
+    rewrite (FO F (swap_half a b hf) (proj2 (swap_half_lt a b (nf s) hf Ha Hb) Hhf) c), NC.
+    rewrite cell_at_face_relabeled, In_map_swap_half. reflexivity.
+  - (* refs_ok, faces *)
+    intros f Hf D h Hin. rewrite NF in Hf. rewrite f_deleted_face_relabeled in D by lia. rewrite face_at_face_relabeled in Hin by assumption.
+    exact (R2 (swap_idx a b f) (proj2 (swap_idx_lt a b (nf s) f Ha Hb) Hf) D h Hin).
+  - (* refs_ok, cells *)
+    intros c Hc D hf Hin. rewrite NC in Hc. rewrite cell_at_face_relabeled in Hin. apply In_map_swap_half in Hin.
+    rewrite NF. apply (swap_half_lt a b (nf s) hf Ha Hb). exact (R3 c Hc D _ Hin).
+  - (* lens_ok *)
+    unfold lens_ok. rewrite NF, NC. unfold face_relabeled. rsf. split; [exact L1|]. split; [|split; [|split; [exact L4|split; [|exact L6]]]].
+    + intros E. rewrite E, map_length. exact (L2 E).
+    + intros F. rewrite F, !swap_nth_length. exact (L3 F).
+    + rewrite swap_nth_length. exact L5.
+Qed.
+
+(* so: a face swap keeps the caches exact, provided no deferred-deleted cell lists a halfface of a or b *)
+Theorem bu_inv_swap_face a b s : a < nf s -> b < nf s -> bu_inv s -> no_deleted_cell_lists s a b -> bu_inv (swap_face_indices a b s).
+Proof.
+  intros Ha Hb B HD. destruct (Nat.eq_dec a b) as [->|N]; [rewrite swap_face_self; exact B|].
+  pose proof B as (VO & EO & FO & R & L).
+  rewrite (swap_face_exact_relabeling a b s N Ha Hb FO EO L HD). apply bu_inv_face_relabeled; assumption.
+Qed.
